@@ -436,7 +436,8 @@ LEVEL_TEXT = (
     "rename a save performs and requires that none of them touches a previously saved process directory, content hashes of "
     "every pre-existing process directory are compared before and after each of 2-6 consecutive saves, and a frozen clock "
     "(fault injection at the existing datetime call) forces directory-name collisions, under which the older directory must "
-    "stay untouched (the library raises FileExistsError)."
+    "stay untouched (the library raises FileExistsError); a third of the histories also contains saves that fail in the pinned library "
+    "(re-save of a loaded model, safe save without initial conditions), after which the older directories must be unchanged as well."
 )
 LEVEL_NOTE = "Trusted: sys.addaudithook sees pandas / joblib / json writes (verified); only built-in mixtures can be stored by name."
 TECHNIQUE = "runtime monitoring: round-trip oracle + audit-hook write-set confinement + before/after directory hashes under injected name collisions"
